@@ -21,7 +21,7 @@ from mc import core
 LEVEL = "model_checking"
 RULE = (
     "every h x w map over the value alphabet x every threshold x two (samples,channels) packings, through the real "
-    "find_global_peaks_rough and find_global_peaks (refinement None and 'integral', patch 3 and 5); plus Gaussian bumps on "
+    "find_global_peaks_rough and find_global_peaks (refinement None and 'integral', patch 3, 4, 5 (and 6 on the Gaussian / symmetric families)); plus Gaussian bumps on "
     "9x9 maps for every centre of the sub-pixel lattice x sigma x amplitude (valid/invalid) and all mirror-symmetric 3x3 "
     "bumps at every interior cell; one evaluation = one (map, threshold, packing, function variant) comparison with the "
     "oracle; states = distinct input maps; transitions = calls of the real functions (batched); a map is non-trivial "
@@ -305,7 +305,7 @@ def examine(spec, thr, rot, patch, layouts=("A", "B")):
                     f"grid peak {rpts[sc].tolist()} refined to {pts[sc].tolist()}: moves more than (patch-1)/2={(patch - 1) / 2}",
                 ),
             )
-        r_half = (patch - 1) // 2
+        r_half = patch // 2  # cells the patch reaches from the peak cell (even patches reach patch/2 on one side)
         if meta is not None and spec["gen"] == "gauss":
             P = meta[order].reshape(S, C, 4)
             true = P[..., :2]
@@ -472,24 +472,24 @@ def plan(tier):
 
     small = [(1, 1), (1, 2), (2, 1), (1, 3), (3, 1), (2, 2), (1, 4), (4, 1), (1, 5), (5, 1), (2, 3), (3, 2)]
     for h, w in small:
-        enum(h, w, ALPHA4, patches=(None, 3, 5))
+        enum(h, w, ALPHA4, patches=(None, 3, 4, 5))
     if tier == "quick":
-        enum(3, 3, ALPHA3, patches=(None, 3, 5))
+        enum(3, 3, ALPHA3, patches=(None, 3, 4, 5))
         enum(3, 3, ALPHA3, patches=(5,), embed=(7, 7, 2, 2), thrs=[thr[2], thr[4]])
         q = 4
     else:
-        enum(3, 3, ALPHA4, patches=(None, 3, 5))
+        enum(3, 3, ALPHA4, patches=(None, 3, 4, 5))
         enum(3, 4, ALPHA3)
         enum(4, 3, ALPHA3)
-        enum(4, 4, ALPHA2, patches=(None, 3, 5))
+        enum(4, 4, ALPHA2, patches=(None, 3, 4, 5))
         enum(3, 3, ALPHA3, patches=(3, 5), embed=(7, 7, 2, 2))
         enum(3, 3, ALPHA3, patches=(3, 5), embed=(5, 5, 0, 2))
         q = 8
-    items.append(({"gen": "gauss", "H": 9, "W": 9, "q": q}, [f32(0.05), f32(0.2)], [3, 5]))
+    items.append(({"gen": "gauss", "H": 9, "W": 9, "q": q}, [f32(0.05), f32(0.2)], [3, 4, 5, 6]))
     if tier != "quick":
-        items.append(({"gen": "gauss", "H": 7, "W": 11, "q": 4}, [f32(0.05), f32(0.2)], [3, 5]))
-    items.append(({"gen": "sym", "H": 9, "W": 9}, [f32(0.2), f32(2.0)], [3, 5]))
-    items.append(({"gen": "sym", "H": 6, "W": 7}, [f32(0.2)], [3, 5]))
+        items.append(({"gen": "gauss", "H": 7, "W": 11, "q": 4}, [f32(0.05), f32(0.2)], [3, 4, 5, 6]))
+    items.append(({"gen": "sym", "H": 9, "W": 9}, [f32(0.2), f32(2.0)], [3, 4, 5, 6]))
+    items.append(({"gen": "sym", "H": 6, "W": 7}, [f32(0.2)], [3, 4, 5, 6]))
     return items
 
 
